@@ -1360,6 +1360,143 @@ func (t *taintEngine) scanIndex() []taintFinding {
 	return out
 }
 
+// scanRangeIndex: `for j := range A { ... B[j] ... }` where A is a list decoded from the input and
+// B is another slice. The number of elements of A is the attacker's; B has as many elements as it
+// has. Unless the two lengths are compared (or B was made with len(A)), B[j] runs off the end.
+func (t *taintEngine) scanRangeIndex() []taintFinding {
+	p := t.p
+	var out []taintFinding
+	lenArg := func(v ssa.Value) ssa.Value {
+		call, ok := stripConv(v).(*ssa.Call)
+		if !ok {
+			return nil
+		}
+		if bi, ok := call.Call.Value.(*ssa.Builtin); ok && bi.Name() == "len" {
+			return call.Call.Args[0]
+		}
+		return nil
+	}
+	// the slice a value was loaded from, as (struct type, field) when it is a field
+	fieldOf := func(v ssa.Value) (string, string) {
+		tn, f, _ := p.fieldLoad(v)
+		return strings.TrimPrefix(tn, "*"), f
+	}
+	// sameList: one SSA value, or two loads of the same field of the same record
+	sameList := func(x, y ssa.Value) bool {
+		if x == nil || y == nil {
+			return false
+		}
+		if x == y {
+			return true
+		}
+		tx, fx, bx := p.fieldLoad(x)
+		ty, fy, by := p.fieldLoad(y)
+		return tx != "" && tx == ty && fx == fy && bx != nil && by != nil && cellOf(bx) == cellOf(by)
+	}
+	for _, fn := range p.Funcs {
+		n := 0
+		for _, b := range fn.Blocks {
+			for _, in := range b.Instrs {
+				ia, ok := in.(*ssa.IndexAddr)
+				if !ok {
+					continue
+				}
+				if _, isSlice := ia.X.Type().Underlying().(*types.Slice); !isSlice {
+					continue
+				}
+				// the index is a loop counter (or counter+1, the form range loops take)
+				idx := stripConv(ia.Index)
+				var ph *ssa.Phi
+				switch x := idx.(type) {
+				case *ssa.Phi:
+					ph = x
+				case *ssa.BinOp:
+					if x.Op == token.ADD {
+						if q, ok := stripConv(x.X).(*ssa.Phi); ok && isIntConst(x.Y, 1) {
+							ph = q
+						}
+					}
+				}
+				if ph == nil {
+					continue
+				}
+				var bound ssa.Value
+				for _, cand := range []ssa.Value{idx, ph} {
+					refs := cand.Referrers()
+					if refs == nil {
+						continue
+					}
+					for _, r := range *refs {
+						bo, ok := r.(*ssa.BinOp)
+						if !ok {
+							continue
+						}
+						if (bo.Op == token.LSS || bo.Op == token.LEQ) && bo.X == cand {
+							bound = bo.Y
+						}
+						if (bo.Op == token.GTR || bo.Op == token.GEQ) && bo.Y == cand {
+							bound = bo.X
+						}
+					}
+				}
+				A := lenArg(bound)
+				if A == nil || sameList(A, ia.X) {
+					continue
+				}
+				// A is a list field of a decoded record
+				tn, f := fieldOf(A)
+				if tn == "" {
+					continue
+				}
+				if _, isWire := t.wire[tn]; !isWire {
+					continue
+				}
+				// B made with len(A)?
+				if ms, ok := ia.X.(*ssa.MakeSlice); ok && sameList(lenArg(ms.Len), A) {
+					continue
+				}
+				n++
+				key := fmt.Sprintf("range-index#%d", n)
+				// a comparison involving len(B) (or the counter against something other than len(A)) dominates?
+				guarded := false
+				for _, blk := range fn.Blocks {
+					if !(blk.Dominates(b)) || blk == b {
+						continue
+					}
+					ifi, ok := blk.Instrs[len(blk.Instrs)-1].(*ssa.If)
+					if !ok {
+						continue
+					}
+					bo, ok := ifi.Cond.(*ssa.BinOp)
+					if !ok {
+						continue
+					}
+					switch bo.Op {
+					case token.LSS, token.LEQ, token.GTR, token.GEQ, token.EQL, token.NEQ:
+					default:
+						continue
+					}
+					for _, side := range []ssa.Value{bo.X, bo.Y} {
+						if la := lenArg(side); la != nil && sameList(la, ia.X) {
+							guarded = true
+						}
+					}
+				}
+				out = append(out, taintFinding{Fn: fn, Instr: ia, Kind: "index", What: key, OK: guarded,
+					Origin: fmt.Sprintf("the number of %s.%s entries in the decoded input", tn, f)})
+			}
+		}
+	}
+	sort.SliceStable(out, func(i, j int) bool {
+		a, b := out[i], out[j]
+		if p.FName(a.Fn) != p.FName(b.Fn) {
+			return p.FName(a.Fn) < p.FName(b.Fn)
+		}
+		return a.What < b.What
+	})
+	return out
+}
+
 // loopBoundOf: ph is a counter (one constant edge, one edge ph+k); returns the value it is compared
 // with by the loop condition.
 func loopBoundOf(ph *ssa.Phi) ssa.Value {
